@@ -281,7 +281,7 @@ func TestCheck(t *testing.T) {
 	defer r.Finish()
 	r.SetExhaustive(true)
 	maxLen := r.N(3, 4)
-	r.SetRule(fmt.Sprintf("bounded-exhaustive sub-products over the alphabet {a,b,/,.}: (1) RpcServiceController and HTTPHandlerController with every list of <=2 prefixes of length 1..2 (421 lists) x strip flag x every id/path of length <=%d; (2) the same controllers with 6 prefix lists x strip x {no regex + 6 regexes} x 3 explicit id lists x {no server regex + 2} x every id/path of length <=%d x 4 server ids; (3) InvokerController with the 421 prefix lists x every id; (4) MatchServeMuxPattern over all sets of <=2 patterns from a pool of 8 x 5 methods (incl. empty) x 11 URLs. Oracle: reference matcher from the constructor docs (prefix OR regex OR list, no filter = all, server regex must also match) <=> a resolver is returned; the resolver is run and the resolved invoker/handler invoked once: with stripping and a prefix match the recorder at the bottom must see exactly id/path minus the first matching prefix in list order, without stripping the id/path unchanged; nothing is asserted about what is seen when stripping is on and the match came only from regex/list. Regexes are judged by hand-written predicates. quick enumerates ids of length <=3, thorough <=4, both completely. Non-trivial = the real HandleDirective was called; distinct = (controller, config, id, server id). (5) NOT exhaustive (enumerated bases x variants, decorations / extra pairs / triples / orders drawn from the seeded PRNG): the real controllers registered on a real in-memory controller bus with 2 or 3 near-equal LookupHTTPHandler / LookupRpcService directives alive at the same time (15 rooted paths / 7 service ids x every variant by trailing slash(es), doubled slash, dot and dot-dot segments, case, leading slash, proper prefix, extension, identical; pairs differing only in method / host / query / client id / server id), both issue orders with every reference held, plus one drawn order in mode released (judged, released, next issued inside the unref-dispose window) or late (registrations added after the first lookup); registration sets derived from the pair so that exactly one / both / neither lookup matches (prefix lists in both orders, discriminating regex, id list, server regex, two controllers, InvokerController). Oracle: the same reference matcher applied to each lookup's OWN path / ids: values delivered to the lookup's own reference once its directive instance is idle == number of matching registrations; every delivered value is invoked with the lookup's own URL / id and each registration's recorder must have seen exactly the expected (stripped) path / id, and nothing if its filter does not match.", maxLen, maxLen))
+	r.SetRule(fmt.Sprintf("bounded-exhaustive sub-products over the alphabet {a,b,/,.}: (1) RpcServiceController and HTTPHandlerController with every list of <=2 prefixes of length 1..2 (421 lists) x strip flag x every id/path of length <=%d; (2) the same controllers with 6 prefix lists x strip x {no regex + 6 regexes} x 7 explicit id lists (none, single, ascending, descending, mixed order, with a duplicate) x {no server regex + 2} x every id/path of length <=%d x 4 server ids; (3) InvokerController with the 421 prefix lists x every id; (4) MatchServeMuxPattern over all sets of <=2 patterns from a pool of 8 x 5 methods (incl. empty) x 11 URLs. Oracle: reference matcher from the constructor docs (prefix OR regex OR list, no filter = all, server regex must also match) <=> a resolver is returned; the resolver is run and the resolved invoker/handler invoked once: with stripping and a prefix match the recorder at the bottom must see exactly id/path minus the first matching prefix in list order, without stripping the id/path unchanged; nothing is asserted about what is seen when stripping is on and the match came only from regex/list. Regexes are judged by hand-written predicates. quick enumerates ids of length <=3, thorough <=4, both completely. Non-trivial = the real HandleDirective was called; distinct = (controller, config, id, server id). (5) NOT exhaustive (enumerated bases x variants, decorations / extra pairs / triples / orders drawn from the seeded PRNG): the real controllers registered on a real in-memory controller bus with 2 or 3 near-equal LookupHTTPHandler / LookupRpcService directives alive at the same time (15 rooted paths / 7 service ids x every variant by trailing slash(es), doubled slash, dot and dot-dot segments, case, leading slash, proper prefix, extension, identical; pairs differing only in method / host / query / client id / server id), both issue orders with every reference held, plus one drawn order in mode released (judged, released, next issued inside the unref-dispose window) or late (registrations added after the first lookup); registration sets derived from the pair so that exactly one / both / neither lookup matches (prefix lists in both orders, discriminating regex, id list, server regex, two controllers, InvokerController). Oracle: the same reference matcher applied to each lookup's OWN path / ids: values delivered to the lookup's own reference once its directive instance is idle == number of matching registrations; every delivered value is invoked with the lookup's own URL / id and each registration's recorder must have seen exactly the expected (stripped) path / id, and nothing if its filter does not match.", maxLen, maxLen))
 	r.Assume("empty-string prefixes are outside the universe (a prefix list entry \"\" cannot be told apart from 'no prefix matched' by srpc.CheckStripPrefix; not demanded either way)")
 	r.Assume("bus family: URLs with a host and a relative path (no leading slash) are outside the universe (url.URL.String prints them like the rooted path, so LookupHTTPHandler.IsEquivalent cannot tell them apart on the unchanged tree; not judged either way)")
 	r.Assume("the caller invokes the resolved invoker / handler with the same service id / URL it looked up (as bifrost_rpc.Invoker and BusHandler do)")
@@ -290,7 +290,7 @@ func TestCheck(t *testing.T) {
 	pfx := words(1, 2)
 	allLists := prefixLists(pfx, 2)
 	smallLists := [][]string{nil, {"a"}, {"a/"}, {"a", "ab"}, {"ab", "a"}, {"/a", "/"}}
-	idLists := [][]string{nil, {"a"}, {"a/b", "b."}}
+	idLists := [][]string{nil, {"a"}, {"a/b", "b."}, {"b.", "a/b"}, {"b", "ab", "a"}, {"ba", "a", "b", "ab"}, {"a", "b", "a"}}
 	serverIDs := []string{"", "s1", "s2", "t"}
 
 	// harness self-check: the hand-written predicates describe the regexes.
